@@ -1,5 +1,5 @@
 import Secp.Gen.ElementMul
-import Secp.Proofs.ScalarCodecTies
+import Secp.Proofs.ScalarBitsTies
 import Secp.Proofs.ScalarApiTiesTests
 import Secp.Proofs.ElementApiTies
 /-!
